@@ -44,6 +44,10 @@ Cases ==
   \cup [g : {"nestedsub"}, top : 1..3, where : {"disk", "cache"}]
   \* a target with no content at all (an empty file, an empty registered source): included, it inserts nothing
   \cup [g : {"empty"}, top : 1..3, where : {"disk", "cache", "both-emptydisk", "both-emptycache"}]
+  \* the files change between two renders on the same engine: what is included is what is there at that render
+  \cup [g : {"changed"}, top : 1..3, change : {"edit", "remove", "create", "shadow", "unshadow"}, phase : 1..2]
+  \* whitespace control inside the included file stops at the file's edges (and the includer's at the include tag)
+  \cup [g : {"trimedge"}, top : 1..2, k : 1..5, where : {"disk", "cache"}]
   \cup [g : {"loop"}, top : 1..2]
   \cup [g : {"fail"}, top : 1..2, how : {"nonstring-int", "nonstring-nil", "nonstring-arr", "inner-error", "inner-syntax", "missing-nested"}]
 
@@ -61,8 +65,10 @@ ProgOf(x) ==
   CASE x.g = "basic" ->
          <<T(<<60>>), AssignW>> \o (IF x.arg = "assigned" THEN <<[t |-> "assign", name |-> <<109>>, e |-> Lit(S(RelOf(x)))]>> ELSE <<>>)
          \o <<Inc(IncArg(x)), T(<<62>>)>>
-    [] x.g \in {"nested", "empty"} -> <<T(<<60>>), AssignW, Inc(Lit(S(F_LIQ))), T(<<62>>)>>
+    [] x.g \in {"nested", "empty", "changed"} -> <<T(<<60>>), AssignW, Inc(Lit(S(F_LIQ))), T(<<62>>)>>
     [] x.g = "nestedsub" -> <<T(<<60>>), AssignW, Inc(Lit(S(SUB_F))), T(<<62>>)>>
+    [] x.g = "trimedge" ->
+         <<T(<<97, 32, 10>>)>> \o (IF x.k = 5 THEN <<[t |-> "trimL"], Inc(Lit(S(F_LIQ))), [t |-> "trimR"]>> ELSE <<Inc(Lit(S(F_LIQ)))>>) \o <<T(<<32, 10, 32, 98>>)>>
     [] x.g = "loop" -> <<[t |-> "for", tag |-> "for", var |-> VV, coll |-> [t |-> "range", a |-> Lit(IntV(1)), b |-> Lit(IntV(3))],
                          body |-> <<Inc(Lit(S(F_LIQ))), T(<<44>>)>>], Ob(Var(VV))>>
     [] x.g = "fail" ->
@@ -72,8 +78,16 @@ ProgOf(x) ==
            T(<<62>>)>>
 EnvOf2(x) == << <<VV, S(<<86>>)>>, <<NN, S(RelOf(x))>>, <<<<97>>, Arr(<<S(F_LIQ)>>)>> >>
 
+EdgeBody(k) ==
+  CASE k = 1 -> <<[t |-> "trimL"], Ob(Var(VV)), [t |-> "trimR"]>>                                   \* {{- v -}}
+    [] k = 2 -> <<T(<<32>>), [t |-> "trimL"], [t |-> "assign", name |-> <<113>>, e |-> Lit(IntV(1))], [t |-> "trimR"], T(<<32, 120, 32>>),
+                  [t |-> "trimL"], [t |-> "assign", name |-> <<113>>, e |-> Lit(IntV(2))], [t |-> "trimR"]>>   \* " {%- assign -%} x {%- assign -%}"
+    [] k = 3 -> <<Ob(Var(VV)), [t |-> "trimR"]>>                                                     \* {{ v -}}
+    [] k = 4 -> <<[t |-> "trimL"], Ob(Var(VV))>>                                                     \* {{- v }}
+    [] k = 5 -> <<T(<<32, 10>>), Ob(Var(VV)), T(<<10, 32>>)>>                                        \* the includer's own hyphens: {%- include -%}
 FilesOf(x) ==
-  CASE x.g = "basic" ->
+  CASE x.g = "trimedge" -> IF x.where = "disk" THEN << <<Target(x), EdgeBody(x.k)>> >> ELSE <<>>
+    [] x.g = "basic" ->
          (IF x.where \in {"disk", "both"} THEN << <<Target(x), Body(DISK)>> >> ELSE <<>>)
          \o (IF x.decoy /\ x.top > 1 THEN << <<RelOf(x), Body(DECOY)>> >> ELSE <<>>)
     [] x.g = "nested" ->
@@ -84,6 +98,12 @@ FilesOf(x) ==
                                      <<JoinPath(DirOf(TOPS[x.top]), G_LIQ), Body(NEST)>>,
                                      <<JoinPath(DirOf(Target(x)), G_LIQ), Body(DECOY)>> >> ELSE <<>>)
     [] x.g = "loop" -> << <<Target(x), Body(DISK)>> >>
+    [] x.g = "changed" ->
+         (CASE x.change = "edit" -> << <<Target(x), Body(IF x.phase = 1 THEN DISK ELSE DECOY)>> >>
+            [] x.change = "remove" -> IF x.phase = 1 THEN << <<Target(x), Body(DISK)>> >> ELSE <<>>
+            [] x.change = "create" -> IF x.phase = 1 THEN <<>> ELSE << <<Target(x), Body(DISK)>> >>
+            [] x.change = "shadow" -> IF x.phase = 1 THEN <<>> ELSE << <<Target(x), Body(DISK)>> >>       \* cached; then also on disk
+            [] x.change = "unshadow" -> IF x.phase = 1 THEN << <<Target(x), Body(DISK)>> >> ELSE <<>>)     \* on disk and cached; then only cached
     [] x.g = "empty" -> (CASE x.where \in {"disk", "both-emptydisk"} -> << <<Target(x), <<>>>> >>
                            [] x.where = "both-emptycache" -> << <<Target(x), Body(DISK)>> >>
                            [] OTHER -> <<>>)
@@ -93,12 +113,14 @@ FilesOf(x) ==
             [] x.how = "missing-nested" -> << <<Target(x), <<Inc(Lit(S(G_LIQ)))>>>> >>
             [] OTHER -> << <<Target(x), Body(DISK)>> >>)
 CacheOf(x) ==
-  CASE x.g = "basic" -> IF x.where \in {"cache", "both"} THEN << <<Target(x), Body(CACHE)>> >> ELSE <<>>
+  CASE x.g = "trimedge" -> IF x.where = "cache" THEN << <<Target(x), EdgeBody(x.k)>> >> ELSE <<>>
+    [] x.g = "basic" -> IF x.where \in {"cache", "both"} THEN << <<Target(x), Body(CACHE)>> >> ELSE <<>>
     [] x.g = "nested" -> IF x.where = "cache" THEN << <<Target(x), <<T(<<40>>), Inc(Lit(S(G_LIQ))), T(<<41>>)>> >>,
                                                      <<JoinPath(DirOf(TOPS[x.top]), G_LIQ), Body(NEST)>> >> ELSE <<>>
     [] x.g = "nestedsub" -> IF x.where = "cache" THEN << <<Target(x), <<T(<<40>>), Inc(Lit(S(G_LIQ))), T(<<41>>)>> >>,
                                                         <<JoinPath(DirOf(TOPS[x.top]), G_LIQ), Body(NEST)>>,
                                                         <<JoinPath(DirOf(Target(x)), G_LIQ), Body(DECOY)>> >> ELSE <<>>
+    [] x.g = "changed" -> IF x.change \in {"shadow", "unshadow"} THEN << <<Target(x), Body(CACHE)>> >> ELSE <<>>
     [] x.g = "empty" -> (CASE x.where \in {"cache", "both-emptycache"} -> << <<Target(x), <<>>>> >>
                            [] x.where = "both-emptydisk" -> << <<Target(x), Body(CACHE)>> >>
                            [] OTHER -> <<>>)
@@ -121,6 +143,19 @@ NestedAndLoop ==
         st.status = "ok" /\ st.sink.acc = Flatten([i \in 1..3 |-> <<91>> \o DISK \o <<58>> \o IntText(i) \o <<124, 93, 44>>]) \o <<86>>
 EmptyIsIncluded == (c.g = "empty" /\ st.status # "run") =>
                      st.status = "ok" /\ st.sink.acc = (IF c.where = "both-emptycache" THEN <<60, 91>> \o DISK \o <<58, 86, 124, 87, 93, 62>> ELSE <<60, 62>>)
+Inl(tag) == <<60, 91>> \o tag \o <<58, 86, 124, 87, 93, 62>>
+ChangedFilesSeen == (c.g = "changed" /\ st.status # "run") =>
+   LET want == CASE c.change = "edit" -> IF c.phase = 1 THEN Inl(DISK) ELSE Inl(DECOY)
+                 [] c.change = "remove" -> IF c.phase = 1 THEN Inl(DISK) ELSE <<>>
+                 [] c.change = "create" -> IF c.phase = 1 THEN <<>> ELSE Inl(DISK)
+                 [] c.change = "shadow" -> IF c.phase = 1 THEN Inl(CACHE) ELSE Inl(DISK)
+                 [] c.change = "unshadow" -> IF c.phase = 1 THEN Inl(DISK) ELSE Inl(CACHE)
+   IN  IF want = <<>> THEN st.status = "error" ELSE st.status = "ok" /\ st.sink.acc = want
+\* include inserts what rendering the file by itself gives: its hyphens do not reach the includer's text
+TrimStopsAtTheEdge == (c.g = "trimedge" /\ st.status # "run") =>
+   st.status = "ok" /\ st.sink.acc = (IF c.k = 5 THEN <<97>> ELSE <<97, 32, 10>>)
+                                     \o Render([Cx0 EXCEPT !.path = TOPS[c.top]], EdgeBody(c.k), EnvOf(EnvOf2(c))).out
+                                     \o (IF c.k = 5 THEN <<98>> ELSE <<32, 10, 32, 98>>)
 FailuresFail == (c.g = "fail" /\ st.status # "run") => st.status = "error"
 \* the includer's variables are untouched by the include (it renders with a copy)
 IncluderEnvKept == \A j \in 1..Len(st.k) : (st.k[j].f = "seq" /\ st.k[j].end = "include") => Same(Lookup(st.k[j].aux, VV), Str(<<86>>)) \/ c.g = "loop"
@@ -128,9 +163,13 @@ IncluderEnvKept == \A j \in 1..Len(st.k) : (st.k[j].f = "seq" /\ st.k[j].end = "
 IdOf(x) ==
   CASE x.g = "basic" -> "basic-" \o ToString(x.top) \o "-" \o x.rel \o "-" \o x.arg \o "-" \o x.where \o "-" \o ToString(x.decoy)
     [] x.g \in {"nested", "nestedsub", "empty"} -> x.g \o "-" \o ToString(x.top) \o "-" \o x.where
+    [] x.g = "changed" -> "changed-" \o ToString(x.top) \o "-" \o x.change \o "-" \o ToString(x.phase)
+    [] x.g = "trimedge" -> "trimedge-" \o ToString(x.top) \o "-" \o ToString(x.k) \o "-" \o x.where
     [] x.g = "loop" -> "loop-" \o ToString(x.top)
     [] x.g = "fail" -> "fail-" \o ToString(x.top) \o "-" \o x.how
-EmitCase == st.status # "run" =>
+\* (the second phase of a "changed" case is observed by the harness itself, after the first, on the same engine)
+EmitCase == (st.status # "run" /\ ~(c.g = "changed" /\ c.phase = 2)) =>
   PrintT(ToJson([id |-> IdOf(c), kind |-> "render", prog |-> ProgOf(c), env |-> EnvOf2(c), path |-> TOPS[c.top],
-                 files |-> FilesOf(c), cache |-> CacheOf(c), usedir |-> TRUE]))
+                 files |-> FilesOf(c), cache |-> CacheOf(c), usedir |-> TRUE]
+                @@ (IF c.g = "changed" THEN [then |-> [id |-> IdOf([c EXCEPT !.phase = 2]), files |-> FilesOf([c EXCEPT !.phase = 2])]] ELSE <<>>)))
 =============================================================================
